@@ -733,6 +733,30 @@ def gen_builder(ctx):
         mk_bf(ctx, N, [so], ["builder", "builder-overlap", "self-overlap"], default={"syntax": "=", "form": "lit", "value": 0})
         ok = mk_field("sq", "arb", 4, [(0, 1), (8, 9)], count=2, stride=4)
         mk_bf(ctx, N, [ok], ["builder"], default={"syntax": "=", "form": "lit", "value": 0})
+    # list arrays in which element i collides only with element i+d, d >= 2 (never with its neighbour): the overlap decision
+    # has to compare every pair of elements, not only adjacent ones (seeded S80)
+    for N in [b for b in bases if b >= 20]:
+        for (d, s) in ((2, 4), (3, 3), (2, 1)):
+            hi = d * s
+            if hi + d * s >= N:
+                continue
+            rs = [(0, 0), (hi, hi)]
+            far = mk_field("fr", "arb", 2, list(rs), count=d + 1, stride=s)
+            mk_bf(ctx, N, [far], ["builder", "builder-overlap", "self-overlap", "far-overlap"], default={"syntax": "=", "form": "lit", "value": 0})
+            near = mk_field("nr", "arb", 2, list(rs), count=d, stride=s)
+            mk_bf(ctx, N, [near], ["builder", "far-overlap"], default={"syntax": "=", "form": "lit", "value": 1})
+        il3 = mk_field("il", "arb", 4, [(0, 0), (2, 2), (4, 4), (6, 6)], count=3, stride=1)
+        mk_bf(ctx, N, [il3], ["builder", "builder-overlap", "self-overlap", "far-overlap"], default={"syntax": "=", "form": "lit", "value": 0})
+        # random list arrays (any stride / count that fits): the expectation comes from the set-level condition
+        for _ in range(2):
+            k = rng.randrange(2, 4)
+            bits = sorted(rng.sample(range(0, min(N, 24) // 2), k))
+            s = rng.randrange(1, 6)
+            cnt = rng.randrange(2, 6)
+            if bits[-1] + (cnt - 1) * s >= N:
+                continue
+            ra = mk_field("ra", "arb", k, [(b, b) for b in bits], count=cnt, stride=s)
+            mk_bf(ctx, N, [ra], ["builder", "far-overlap"], default={"syntax": "=", "form": "lit", "value": 0})
     # declared (read-only) fields cover the base but the default's bits under them must survive
     for N in [b for b in bases if b >= 8]:
         fs = [mk_field("lvl", int_kind(N // 2), N // 2, [(0, N // 2 - 1)]), mk_field("rev", int_kind(N - N // 2), N - N // 2, [(N // 2, N - 1)], access="r")]
